@@ -24,6 +24,10 @@ over-approximation of the code's shape: no concrete value is ever computed.
 from core import (TRANSPARENT_CALLS, strip_site, subexprs, mentions, project, downcast, norm_binop, enum_paths,
                   is_log_block_term, eq_variant, try_branch_subject, subst_params, unclone, fmt, OVERFLOW_OPS)
 
+# trait methods whose (derived) impls are value-level vocabulary of the expression language, never control flow to inline
+NEVER_INLINE = ("std::cmp::PartialEq::", "std::cmp::PartialOrd::", "std::cmp::Ord::", "std::clone::Clone::", "std::hash::Hash::",
+                "std::fmt::", "std::default::Default::", "std::ops::Drop::")
+
 NONE = ("agg", "std::option::Option", "None", ())
 
 
@@ -44,10 +48,10 @@ def payload(x, variant):
 
 
 class Ev:
-    __slots__ = ("fn", "bb", "t", "callee", "generic", "args", "res", "depth", "log")
+    __slots__ = ("fn", "bb", "t", "callee", "generic", "args", "res", "depth", "log", "seq")
 
-    def __init__(self, fn, bb, t, callee, generic, args, res, depth, log=False):
-        self.fn, self.bb, self.t, self.callee, self.generic, self.args, self.res, self.depth, self.log = fn, bb, t, callee, generic, args, res, depth, log
+    def __init__(self, fn, bb, t, callee, generic, args, res, depth, log=False, seq=0):
+        self.fn, self.bb, self.t, self.callee, self.generic, self.args, self.res, self.depth, self.log, self.seq = fn, bb, t, callee, generic, args, res, depth, log, seq
 
     def where(self):
         return self.fn.where(self.bb)
@@ -113,17 +117,23 @@ class SPath:
 
 
 class _State:
-    __slots__ = ("env", "pmem", "dv", "refs", "atoms", "events", "stores", "trace")
+    __slots__ = ("env", "pmem", "dv", "refs", "atoms", "events", "stores", "trace", "n")
 
     def __init__(self):
         self.env, self.pmem, self.dv, self.refs = {}, {}, {}, {}
         self.atoms, self.events, self.stores, self.trace = [], [], [], []
+        self.n = 0
 
     def fork(self):
         s = _State()
         s.env, s.pmem, s.dv, s.refs = dict(self.env), dict(self.pmem), dict(self.dv), dict(self.refs)
         s.atoms, s.events, s.stores, s.trace = list(self.atoms), list(self.events), list(self.stores), list(self.trace)
+        s.n = self.n
         return s
+
+    def tick(self):
+        self.n += 1
+        return self.n
 
 
 class Engine:
@@ -251,7 +261,7 @@ class Engine:
             return
         if "deref" in proj:
             tgt = self.rd_place(f, st, p)
-            st.stores.append((tgt, val, (f, bb, idx)))
+            st.stores.append((tgt, val, (f, bb, idx, st.tick())))
             # `*r = v` where r = &mut local on this path: the local itself changes
             if proj[0] == "deref" and l in st.refs and l not in (1,):
                 t = st.refs[l]
@@ -387,7 +397,7 @@ class Engine:
                                       ("Result::<T, E>::is_ok", None, "Ok", "Err"), ("Result::<T, E>::is_err", None, "Err", "Ok")):
                 if m.endswith(suffix) and len(e[2]) == 1:
                     return self.add_enum(st, e[2][0], (vt if truth else vf,), where)
-        st.atoms.append(("bool", e, truth, where))
+        st.atoms.append(("bool", e, truth, where, st.tick()))
         return True
 
     def add_enum(self, st, scrut, names, where):
@@ -398,7 +408,7 @@ class Engine:
             if pos:
                 return x[2] in pos
             return x[2] not in neg
-        st.atoms.append(("enum", scrut, tuple(names), where))
+        st.atoms.append(("enum", scrut, tuple(names), where, st.tick()))
         return True
 
     # ---- calls ----------------------------------------------------------------------------------------------------
@@ -419,7 +429,7 @@ class Engine:
         outs = None
         if self.inline_closures:
             outs = self.combinator(f, st, b, t, generic, callee, args, depth, stack)
-        if outs is None and t["res"] == "item":
+        if outs is None and t["res"] == "item" and not generic.startswith(NEVER_INLINE):
             g = self.inlinable(callee, depth, stack)
             if g is not None and not (g.is_simple_accessor() and g.kind != "Closure"):
                 summ = self.summary(g, depth - 1, stack)
@@ -428,44 +438,43 @@ class Engine:
         if outs is None:
             val = f.call_expr(b, t, args)
             if not (val[0] != "call" or generic in TRANSPARENT_CALLS):
-                st.events.append(Ev(f, b, t, callee if t["res"] not in ("unresolved", "virtual") else generic, generic, args, val, depth))
+                st.events.append(Ev(f, b, t, callee if t["res"] not in ("unresolved", "virtual") else generic, generic, args, val, depth, False, st.tick()))
             return [finish(st, val)]
         res = []
         for item in outs:
             s2 = st.fork()
             if isinstance(item[0], SPath):
                 sp, a = item
-                ok = True
-                for at in sp.atoms:
-                    e2 = _subst(at[1], a)
-                    if at[0] == "bool":
-                        ok = self.add_bool(s2, e2, at[2], at[3])
-                    else:
-                        ok = self.add_enum(s2, e2, at[2], at[3])
-                    if not ok:
-                        break
-                if not ok:
-                    continue
-                for ev in sp.events:
-                    eargs = tuple(_subst(x, a) for x in ev.args)
-                    s2.events.append(Ev(ev.fn, ev.bb, ev.t, ev.callee, ev.generic, eargs, _subst(ev.res, a), ev.depth, ev.log))
-                for tgt, val, w in sp.stores:
-                    s2.stores.append((_subst(tgt, a), _subst(val, a), w))
-                res.append(finish(s2, _subst(sp.ret, a)))
+                atoms = [(at[0], _subst(at[1], a), at[2], at[3], at[4]) for at in sp.atoms]
+                events = [Ev(ev.fn, ev.bb, ev.t, ev.callee, ev.generic, tuple(_subst(x, a) for x in ev.args), _subst(ev.res, a), ev.depth, ev.log, ev.seq) for ev in sp.events]
+                stores = [(_subst(tgt, a), _subst(val, a), w) for tgt, val, w in sp.stores]
+                val = _subst(sp.ret, a)
             else:
                 # synthetic outcome from a combinator model: (atoms, events, stores, value)
                 atoms, events, stores, val = item
-                ok = True
-                for at in atoms:
-                    ok = self.add_bool(s2, at[1], at[2], at[3]) if at[0] == "bool" else self.add_enum(s2, at[1], at[2], at[3])
-                    if not ok:
-                        break
-                if not ok:
-                    continue
-                s2.events += events
-                s2.stores += stores
-                res.append(finish(s2, val))
+            if not self.merge(s2, atoms, events, stores):
+                continue
+            res.append(finish(s2, val))
         return res
+
+    def merge(self, st, atoms, events, stores=()):
+        """append a callee's atoms and events in their own execution order; False when an atom contradicts a
+        constructor known on the caller's path"""
+        items = [(at[4] if len(at) > 4 else 0, 0, at) for at in atoms] + [(ev.seq, 1, ev) for ev in events] + \
+                [((sx[2][3] if len(sx[2]) > 3 else 0), 2, sx) for sx in stores]
+        items.sort(key=lambda x: (x[0], x[1]))
+        for _, kind, it in items:
+            if kind == 2:
+                w = it[2]
+                st.stores.append((it[0], it[1], (w[0], w[1], w[2], st.tick())))
+                continue
+            if kind == 0:
+                ok = self.add_bool(st, it[1], it[2], it[3]) if it[0] == "bool" else self.add_enum(st, it[1], it[2], it[3])
+                if not ok:
+                    return False
+            else:
+                st.events.append(Ev(it.fn, it.bb, it.t, it.callee, it.generic, it.args, it.res, it.depth, it.log, st.tick()))
+        return True
 
     # ---- closures ------------------------------------------------------------------------------------------------------
     def closure_paths(self, clo, cargs, depth, stack):
@@ -493,8 +502,8 @@ class Engine:
             return None
         outs = []
         for sp in summ:
-            atoms = [(at[0], _subst(at[1], a), at[2], at[3]) for at in sp.atoms]
-            events = [Ev(ev.fn, ev.bb, ev.t, ev.callee, ev.generic, tuple(_subst(x, a) for x in ev.args), _subst(ev.res, a), ev.depth, ev.log) for ev in sp.events]
+            atoms = [(at[0], _subst(at[1], a), at[2], at[3], at[4]) for at in sp.atoms]
+            events = [Ev(ev.fn, ev.bb, ev.t, ev.callee, ev.generic, tuple(_subst(x, a) for x in ev.args), _subst(ev.res, a), ev.depth, ev.log, ev.seq) for ev in sp.events]
             stores = [(_subst(tg, a), _subst(v, a), w) for tg, v, w in sp.stores]
             outs.append((atoms, events, stores, _subst(sp.ret, a)))
         return outs
@@ -538,8 +547,8 @@ class Engine:
                     return None
                 outs = [(none, [], [], NONE)]
                 for atoms, events, stores, val in cp:
-                    outs.append((some + atoms + [("bool", val, True, w)], events, stores, x))
-                    outs.append((some + atoms + [("bool", val, False, w)], events, stores, NONE))
+                    outs.append((some + atoms + [("bool", val, True, w, 10 ** 9)], events, stores, x))
+                    outs.append((some + atoms + [("bool", val, False, w, 10 ** 9)], events, stores, NONE))
                 return outs
             if meth == "is_some_and" and len(args) == 2:
                 r = with_closure(args[1], [pl], some, lambda v: v)
